@@ -196,6 +196,12 @@ add("C19",
 # ---------------------------------------------------------------- C03
 LOADER = "dateparser/languages/loader.py"
 add("C03",
+    V("settings-containers-stored-by-reference", "C03", [(CONF, "            if isinstance(value, (list, dict)):\n                # never alias a container the caller may change later\n                value = copy(value)\n", "")], "fire", "C03.R10",
+      note="the defect repaired by c45787b: a caller changing its own settings dict/list afterwards changes what other parsers return"),
+    V("settings-copy-lists-only", "C03", [(CONF, "            if isinstance(value, (list, dict)):", "            if isinstance(value, list):")], "fire", "C03.R10"),
+    V("twin-settings-copy-in-replace-and-lists", "C03", [(CONF, "            if isinstance(value, (list, dict)):", "            if isinstance(value, list):"), (CONF, '            kwds["_mod_settings"] = mod_settings', '            kwds["_mod_settings"] = dict(mod_settings)')], "silent"),
+    V("twin-settings-unconditional-copy", "C03", [(CONF, "            if isinstance(value, (list, dict)):\n                # never alias a container the caller may change later\n                value = copy(value)\n", "            value = copy(value)\n")], "silent"),
+    V("settings-copy-after-store", "C03", [(CONF, "            if isinstance(value, (list, dict)):\n                # never alias a container the caller may change later\n                value = copy(value)\n            setattr(self, key, value)\n", "            setattr(self, key, value)\n            if isinstance(value, (list, dict)):\n                value = copy(value)\n")], "fire", "C03.R10"),
     V("dictionary-settings-set-only-at-creation", "C03", [(LOCALE, "            if self._dictionary is None:\n                self._generate_dictionary()\n            self._dictionary._settings = settings\n", "            if self._dictionary is None:\n                self._generate_dictionary()\n                self._dictionary._settings = settings\n")], "fire", "C03.R8",
       note="seeded change C03-6: the first NORMALIZE=False caller's SKIP_TOKENS serve every later caller"),
     V("language-table-aliased-and-popped", "C03", [("dateparser/languages/loader.py", "                        shortname, language_info=deepcopy(self._loaded_languages[lang])\n", "                        shortname, language_info=self._loaded_languages[lang]\n"),
@@ -360,6 +366,13 @@ add("C13",
     V("given-order-always-sorted", "C13", [(LOADER, "        if not use_given_order:\n            locale_dict = OrderedDict(", "        if True:\n            locale_dict = OrderedDict(")], "fire", "C13.R3"),
     V("languages-stored-wrong", "C13", [(DATE, "        self.locales = locales\n        self.region = region", "        self.locales = None\n        self.region = region")], "fire", "C13.R1"),
     V("applicability-skipped", "C13", [(DATE, "            for s in date_strings():\n                if self._is_applicable_locale(locale, s):\n                    yield locale\n\n        if self._settings.DEFAULT_LANGUAGES:", "            yield locale\n\n        if self._settings.DEFAULT_LANGUAGES:")], "fire", "C13.R1"),
+    V("region-names-zipped-against-all-languages", "C13", [(LOADER, "            for language in languages:\n                for locale in _construct_locales([language], region):\n                    locale_dict[locale] = (language, region)\n", "            locales = _construct_locales(languages, region)\n            locale_dict.update(\n                zip(\n                    locales, tuple(zip_longest(languages, [], fillvalue=region))\n                )\n            )\n"), (LOADER, "from importlib import import_module\n", "from importlib import import_module\nfrom itertools import zip_longest\n")], "fire", "C13.R6",
+      note="the defect repaired by 18d8e12: region='BE' gives a 'fr-BE' that speaks Russian, cached for the whole process"),
+    V("twin-region-pairs-by-comprehension", "C13", [(LOADER, "            for language in languages:\n                for locale in _construct_locales([language], region):\n                    locale_dict[locale] = (language, region)\n", "            locale_dict.update(\n                (locale, (language, region))\n                for language in languages\n                for locale in _construct_locales([language], region)\n            )\n")], "silent"),
+    V("twin-unfiltered-zip", "C13", [(LOADER, "            for language in languages:\n                for locale in _construct_locales([language], region):\n                    locale_dict[locale] = (language, region)\n", "            names = [language + '-' + region if region else language for language in languages]\n            locale_dict.update(zip(names, [(language, region) for language in languages]))\n")], "silent"),
+    V("region-pair-takes-first-language", "C13", [(LOADER, "                    locale_dict[locale] = (language, region)\n", "                    locale_dict[locale] = (languages[0], region)\n")], "fire", "C13.R6"),
+    V("locale-cached-under-language", "C13", [(LOADER, "                    locale = Locale(shortname, language_info=deepcopy(language_info))\n                    self._loaded_languages[lang] = language_info\n                    self._loaded_locales[shortname] = locale", "                    locale = Locale(shortname, language_info=deepcopy(language_info))\n                    self._loaded_languages[lang] = language_info\n                    self._loaded_locales[lang] = locale")], "fire", "C13.R6"),
+    V("data-module-of-the-locale-name", "C13", [(LOADER, 'import_module("dateparser.data.date_translation_data." + lang)', 'import_module("dateparser.data.date_translation_data." + shortname)')], "fire", "C13.R6"),
     )
 
 # ---------------------------------------------------------------- C14
